@@ -24,7 +24,7 @@ numeric = Union[int, float]
 TACTICS_ORDER = [1, 2, 3, 4, 5]  # noqa: WPS407
 
 # Numerical tolerance granted to an LP optimum when it is compared against the bound of a constraint
-REFINEMENT_TOLERANCE = 1e-6  # noqa: WPS407
+REFINEMENT_TOLERANCE = 1e-8  # noqa: WPS407
 
 
 class PolyhedralTerm(Term):
